@@ -6,6 +6,6 @@ PROP = "C02"
 
 def run(rep, tier):
     return run_core(
-        rep, "C02", ['rel2', 'rel3', 'chain_s', 'provrel', 'xrel'], ['rel2', 'rel3', 'rel4', 'chain', 'provrel', 'xrel'], tier,
+        rep, "C02", ['rel2', 'rel3', 'chain_s', 'provrel', 'xrel'], ['rel2', 'rel3', 'rel4', 'chain_m', 'provrel', 'xrel'], tier,
         "every design of the relation families (every assignment of add_conflict U/L/R / schedule_before / none to every pair of 2-3 bodies, on transactions and on methods, including one transaction calling both related methods) explored over all input valuations; for every add_conflict(a,b) the two bodies must never both run; non-trivial = valuations where both sides of a conflict are fully enabled",
         scheds=("eager", "rr"), floors={"designs_simulated": 100, "transitions": 5000, "nt_conflicting_both_enabled": 500})
